@@ -66,6 +66,7 @@ async def _scenario(seed: int) -> dict[str, Any]:
     tau_half = 137 if mode == "tau" else 0  # in hundredths of a tick
     on_conn_gen = rng.random() < 0.35
     close_at = rng.choice([0, 0, 0, rng.randint(1, nreq)])
+    yield_after_close = rng.random() < 0.5
     buffered = rng.random() < 0.5
     events: list[dict[str, Any]] = []
     t0 = loop.time()
@@ -101,6 +102,10 @@ async def _scenario(seed: int) -> dict[str, Any]:
                 # anything else thrown at the yield point: a peer that goes away must close the generator instead
                 ev(f"thrown:{type(exc).__name__}")
                 raise
+            if state.get("closed"):
+                # the handler closed the client and went back to its yield: the generator must be closed there, not fed
+                ev("req_after_close")
+                return
             state["seen"] += 1
             state["reqs"] += 1
             want = frames[state["seen"] - 1].decode("ascii", "replace").rstrip("\n") if state["seen"] <= len(frames) else None
@@ -111,7 +116,10 @@ async def _scenario(seed: int) -> dict[str, Any]:
                 await client.send_packet(f"ack{idx}")
             if close_at and state["seen"] >= close_at:
                 await client.aclose()
-                return
+                if not yield_after_close:
+                    return
+                state["closed"] = True
+                k = 10**6  # keeps yielding: whatever was pipelined behind this request must not reach it any more
 
     class Handler(AsyncStreamRequestHandler[str, str]):
         if on_conn_gen:
@@ -164,7 +172,7 @@ async def _scenario(seed: int) -> dict[str, Any]:
     return {
         "par": {"ends": ends, "kinds": kinds, "tau": tau_half, "zero": mode == "zero"},
         "events": traces.uniform(events, EVD),
-        "meta": f"seed={seed} kinds={kinds} per_gen={per_gen} timeout={mode} on_connection={'generator' if on_conn_gen else 'coroutine'} close_at={close_at} path={'buffered' if buffered else 'copy'} disconnect={how}",
+        "meta": f"seed={seed} kinds={kinds} per_gen={per_gen} timeout={mode} on_connection={'generator' if on_conn_gen else 'coroutine'} close_at={close_at}{'(then yields again)' if close_at and yield_after_close else ''} path={'buffered' if buffered else 'copy'} disconnect={how}",
     }
 
 
